@@ -27,7 +27,14 @@ import zlib
 from . import common
 from .common import cN, cZ, cbool, cbytes, clist, copt, cstr
 
-THEOREMS = []   # filled in below (kept next to the Props.v names)
+THEOREMS = [
+    "repo_tables_are_the_standard_ones", "b64_roundtrip", "b64_length", "utf8_roundtrip",
+    "credentials_recoverable", "preemptive_credentials_on_the_wire", "no_credentials_no_header",
+    "colon_in_username_not_recoverable", "urlsafe_alphabet_refuted",
+    "body_fidelity", "credentials_keep_encoding", "soap_defaults_delivered", "caller_header_delivered",
+    "request_header_delivered", "reply_fidelity", "error_mapping", "status_mapping", "failures_propagate",
+    "nonascii_url_rejected_before_io", "timeout_choice",
+]
 
 PRE = "From SV Require Import Lib.Base C15.Base64 C15.Model."
 
